@@ -129,6 +129,30 @@ def aggregate_scenarios(w: PolWorld):
     return out
 
 
+def aggregate_guard_table(w: PolWorld, agg_ops):
+    """every aggregate of the catalogue, compiled without partition: the null-for-empty guard (`count() == 0` -> null) is there
+    exactly for the aggregates whose value over nothing is null (all but the counting and the list-building ones).
+    agg_ops: [(operator variable, number of positional arguments, guard expected)] -> list of (description, ok, detail)"""
+    out = []
+    names = {"UA": "a", "UB": "b"}
+    for var, nargs, want in agg_ops:
+        # further parameters of an aggregate are constants (a delimiter ..): a column stub typed Const stands for them
+        args = [w.col("a", "UA")] + [w.p.new("tree.col_expr", "Col", name="b", _ast=None, _uuid="UB", _dtype=DT("Const", DT("String")), _ftype=w.F.ELEMENT_WISE) for _ in range(max(0, nargs - 1))]
+        args = args[:nargs]
+        try:
+            t = w.compile(w.fn(w.op(var, w.F.AGGREGATE), args), names)
+        except PyRaise as e:
+            out.append((f"aggregate `{var}` compiles", False, f"Polars compile_col_expr raises {e.name}: {e.msg} for the aggregate `{var}`"))
+            continue
+        guards = _ancestors_fn(t, lambda x: x.fn == "count" and x.recv is not None) if nargs else []
+        whens = _ancestors_fn(t, lambda x: x.fn.split(".")[-1] == "when")
+        has = bool(guards) and bool(whens)
+        out.append((f"aggregate `{var}`: null-for-empty guard {'present' if want else 'absent'}", has == want,
+                    f"Polars `{var}` compiles to {str(t)[:160]}: " + ("the result of a group without non-null input must be null (SQL gives NULL; Polars alone gives 0 / False / an empty value)"
+                    if want else "counting / list-building aggregates give 0 / an empty list over nothing, never null")))  # fmt: skip
+    return out
+
+
 def _walk_all(t):
     if isinstance(t, Term):
         yield t
@@ -503,3 +527,71 @@ def _add_schema_methods(w, fr):
         return r
 
     fr.attrs["select"] = Native(select, "frame.select")
+
+
+def summarize_scenarios(w: PolWorld, branch):
+    """the Summarize branch of the Polars compiler on a schema-level frame stub, for a table that is grouped by two columns,
+    by one, and not at all: grouped -> `group_by(<physical names of the grouping columns, in order>).agg(<one expression per new
+    column>)`, ungrouped -> `select(..)` to a single row; afterwards nothing is grouped any more and the name map knows the
+    grouping columns and the aggregates.  -> list of (description, ok, detail)"""
+    from collections import ChainMap
+
+    p = w.p
+    out = []
+    for label, groups in (("grouped by (g, h)", ["g", "h"]), ("grouped by (h)", ["h"]), ("not grouped", [])):
+        calls = []
+        cols = ["a", "g", "h"]
+        uid = {n: f"U.{n}" for n in cols}
+
+        def frame(columns, _calls=calls):
+            o = Obj.__new__(Obj)
+            o.cls = _OP_CLASS
+            o.attrs = {"__frame__": Frame(columns)}
+
+            def group_by(*keys, **kw):
+                flat = []
+                for k in keys:
+                    flat += list(k) if isinstance(k, (list, tuple)) else [k]
+                names = [k if isinstance(k, str) else (k.args[0] if isinstance(k, Term) and k.fn.split(".")[-1] == "col" and k.args else repr(k)) for k in flat]
+                g = Obj.__new__(Obj)
+                g.cls = _OP_CLASS
+
+                def agg(*pos, **named):
+                    _calls.append(("group_by.agg", names, list(named) + [repr(x) for x in pos]))
+                    return frame(names + list(named))
+
+                g.attrs = {"agg": Native(agg, "groupby.agg")}
+                return g
+
+            def select(*pos, **named):
+                _calls.append(("select", [], list(named) + [repr(x) for x in pos]))
+                return frame(list(named))
+
+            o.attrs.update({"group_by": Native(group_by, "frame.group_by"), "select": Native(select, "frame.select")})
+            return o
+
+        a = w.col("a", uid["a"])
+        val = w.fn(w.op("sum", w.F.AGGREGATE), [a])
+        nd = p.new("tree.verbs", "Summarize", child=None, name="t", names=["s"], values=[val], uuids=["U.s"])
+        local = {"nd": nd, "df": frame(cols), "name_in_df": {u: n for n, u in uid.items()}, "select": [uid[n] for n in cols], "partition_by": [uid[g] for g in groups]}
+        env = ChainMap(local, w.env)
+        try:
+            p.it.exec_block(list(branch), env)
+        except PyRaise as e:
+            out.append((f"summarize, {label}", False, f"the Polars Summarize branch raises {e.name}: {e.msg} for a table {label}"))
+            continue
+        if groups:
+            ok = len(calls) == 1 and calls[0][0] == "group_by.agg" and calls[0][1] == groups and calls[0][2] == ["s"]
+            want = f"group_by({groups}).agg(s=..)"
+        else:
+            ok = len(calls) == 1 and calls[0][0] == "select" and calls[0][2] == ["s"]
+            want = "select(s=..) (one row)"
+        out.append((f"summarize, {label}: {want}", ok,
+                    f"Polars summarize of a table {label} runs {calls}; documented: {want} - one row per combination of the grouping columns, in their order"))  # fmt: skip
+        pb = local.get("partition_by")
+        out.append((f"summarize, {label}: the result is not grouped", list(pb or []) == [], f"after summarize the Polars compiler still carries the grouping {pb}"))
+        nm = local.get("name_in_df") or {}
+        want_nm = {uid[g]: g for g in groups} | {"U.s": "s"}
+        out.append((f"summarize, {label}: name map = grouping columns + aggregates", dict(nm) == want_nm,
+                    f"after summarize of a table {label} the name map is {dict(nm)}, documented {want_nm}"))  # fmt: skip
+    return out
